@@ -13,24 +13,24 @@ FUNCTIONS = ['gaddlemaps.components._components:Molecule.__init__', 'gaddlemaps.
              'gaddlemaps.components._residue:Residue.move', 'gaddlemaps.components._residue:Residue.move_to', 'gaddlemaps.components._residue:Residue.rotate',
              'gaddlemaps.components._residue:Residue.atoms_positions', 'gaddlemaps.components._residue:Residue.atoms_velocities', 'gaddlemaps.components._residue:Residue.atoms_ids',
              'gaddlemaps._alignment:Alignment.start']
-EXPLANATION = ('Every sequence of up to 3 (quick) / 4 (thorough) operations over {move, move_to, rotate, set positions, set velocities, set atom '
+EXPLANATION = ('Every sequence of up to 3 (quick) / 4 (thorough) operations over {move, move_to, rotate, read the geometric centre, set positions, set velocities, set atom '
                'ids, set residue numbers, set residue names, assign through an indexed atom view, assign through an iterated atom view} is applied to one '
                'side of an (original, copy) pair built with every copy route (Molecule.copy / deep_copy, Residue.copy, AtomGro.copy, Atom.copy, '
-               'Alignment.start, Molecule(top, residues)), in both directions; all coordinates, velocities, the displacement, the target point and '
+               'Alignment.start on first assignment and on re-assignment of a complete alignment, Alignment.end on re-assignment), in both directions; all coordinates, velocities, the displacement, the target point and '
                'the rotation (elementary rotation (c,s) with c^2+s^2=1) are symbolic.  After every operation the untouched side must still carry '
                'its initial symbolic terms / numbers (isolation), a view assignment must be visible in the molecule, and for the rigid operations '
                'the SMT obligations are: positions = old + d (move), centre = requested point (move_to), all pairwise squared distances and the '
                'centre preserved (rotate), a two-residue molecule rotated about the centre of the whole molecule.')
-BOUNDS = {'quick': {'sequences': 'all of length <= 3 over 10 operations (1110) x 7 copy routes x 2 directions', 'objects': '1-residue (2 atoms) and 2-residue (2+2 atoms) molecules, a residue, an atom'},
-          'thorough': {'sequences': 'all of length <= 4 (11110)'}}
+BOUNDS = {'quick': {'sequences': 'all of length <= 3 over 11 operations (1463) x 9 copy routes x 2 directions', 'objects': '1-residue (2 atoms) and 2-residue (2+2 atoms) molecules, a residue, an atom'},
+          'thorough': {'sequences': 'all of length <= 4 (16104)'}}
 OUTSIDE = ['sequences of length up to 40 (no operation keeps hidden state: each operation is checked from the state left by all shorter prefixes)', 'binary64 rounding',
            'rotations are elementary ones about x, y, z (generators of SO(3))']
 STUBS = ['molecules built directly with the real classes']
 ASSUMPTIONS = ['c^2 + s^2 = 1 for the rotation', 'exact real arithmetic']
 CASE_TIMEOUT = {'quick': 900, 'thorough': 3000}
 
-OPS = ['move', 'move_to', 'rotate', 'set_pos', 'set_vel', 'set_ids', 'set_resids', 'set_resnames', 'view_index', 'view_iter']
-ROUTES = ['mol.copy', 'mol.deep_copy', 'mol2.copy', 'mol2.deep_copy', 'residue.copy', 'atomgro.copy', 'alignment.start']
+OPS = ['move', 'move_to', 'rotate', 'set_pos', 'set_vel', 'set_ids', 'set_resids', 'set_resnames', 'view_index', 'view_iter', 'read_centre']
+ROUTES = ['mol.copy', 'mol.deep_copy', 'mol2.copy', 'mol2.deep_copy', 'residue.copy', 'atomgro.copy', 'alignment.start', 'alignment.restart', 'alignment.reend']
 
 
 def cases(tier):
@@ -74,6 +74,17 @@ def run_case(case):
         if route == 'alignment.start':
             ali = Alignment(start=mol)
             return mol, ali.start, 'molecule'
+        if route in ('alignment.restart', 'alignment.reend'):
+            # a complete alignment whose start / end is assigned again with another conformation of the same species
+            other = make_molecule('MOL', atoms, [(i, i + 1) for i in range(n - 1)], fresh(n, 'o'), velocities=fresh(n, 'ov'))
+            partner = make_molecule('PAR', [('P%d' % i, 'RP', 1) for i in range(3)], [(0, 1), (1, 2)], fresh(3, 'q'))
+            if route == 'alignment.restart':
+                ali = Alignment(mol, partner)
+                ali.start = other
+                return other, ali.start, 'molecule'
+            ali = Alignment(partner, mol)
+            ali.end = other
+            return other, ali.end, 'molecule'
         if route == 'residue.copy':
             res = make_residues(atoms, X, velocities=Vv)[0]
             return res, res.copy(), 'residue'
@@ -181,6 +192,11 @@ def run_case(case):
                             T.resnames = ['N%d%d' % (step, i) for i in range(len(T.resnames))]
                     else:
                         T.resname = 'Q%d' % step
+                elif op == 'read_centre':
+                    cen = T.geometric_center
+                    cxyz = (T.x, T.y, T.z)
+                    if not all(z3.eq(z3.simplify(expr(cen[k])), z3.simplify(com0[k])) and z3.eq(z3.simplify(expr(cxyz[k])), z3.simplify(com0[k])) for k in range(3)):
+                        prove(ctx, tagp + ': geometric centre = mean of the current positions', z3.And(*[expr(cen[k]) == com0[k] for k in range(3)] + [expr(cxyz[k]) == com0[k] for k in range(3)]), seq)
                 elif op in ('view_index', 'view_iter'):
                     newp = fresh(1, 'vp')[0]
                     atom = T[n - 1] if op == 'view_index' else list(T)[n - 1]
@@ -223,6 +239,13 @@ def replay(w):
         orig, cp, kind = mol, mol.deep_copy(), 'molecule-deep'
     elif route == 'alignment.start':
         orig, cp = mol, Alignment(start=mol).start
+    elif route in ('alignment.restart', 'alignment.reend'):
+        other = make_molecule('MOL', atoms, [(i, i + 1) for i in range(n - 1)], rs.uniform(-2, 2, (n, 3)), velocities=rs.uniform(-1, 1, (n, 3)))
+        partner = make_molecule('PAR', [('P%d' % i, 'RP', 1) for i in range(3)], [(0, 1), (1, 2)], rs.uniform(-2, 2, (3, 3)))
+        if route == 'alignment.restart':
+            ali = Alignment(mol, partner); ali.start = other; orig, cp = other, ali.start
+        else:
+            ali = Alignment(partner, mol); ali.end = other; orig, cp = other, ali.end
     elif route == 'residue.copy':
         res = make_residues(atoms, X, velocities=Vv)[0]
         orig, cp, kind = res, res.copy(), 'residue'
@@ -274,6 +297,9 @@ def replay(w):
                 if np.abs(A.mean(axis=0) - before.mean(axis=0)).max() > 1e-9: bad.append('rotation moves the centre')
                 if any(abs(np.linalg.norm(A[i] - A[j]) - np.linalg.norm(before[i] - before[j])) > 1e-9 for i in range(m_) for j in range(i)):
                     bad.append('rotation changes interatomic distances (object not rotated as one body)')
+            elif op == 'read_centre':
+                if np.abs(T.geometric_center - before.mean(axis=0)).max() > 1e-9 or abs(T.x - before.mean(axis=0)[0]) > 1e-9:
+                    bad.append('geometric centre is not the mean of the current positions')
             elif op == 'set_pos':
                 T.atoms_positions = rs.uniform(-1, 1, (m_, 3))
             elif op == 'set_vel':
